@@ -644,8 +644,12 @@ def _mip_by_value(rc: RuleCtx, fi) -> bool:
     red = ev.symbol("reduced", True)
     ev.len_map = {"points": sym("n"), "reduced": sym("R")}
     try:
-        val = ev.eval_function(fi, {"points": pts, "reduced": red}).value()
+        out_ = ev.eval_function(fi, {"points": pts, "reduced": red})
+        val = out_.value()
     except (Unsupported, AnalysisError):
+        return False
+    from .common import stray_stores
+    if stray_stores(out_):
         return False
     if not (isinstance(val, Vec) and len(val.items) == 2 and all(isinstance(i, Rat) for i in val.items)):
         return False
